@@ -34,12 +34,13 @@ type Master struct {
 	Role      string          // for INFO replication, default master
 	Unknown   map[string]bool // command names answered with Redis >= 5's "unknown command ... with args beginning with" error
 
-	acks   []int64
-	ackAt  []int // connection index of each ack
-	psyncs []Psync
-	other  []string
-	nconn  int
-	conns  []net.Conn
+	listenPort string // announced with REPLCONF listening-port
+	acks       []int64
+	ackAt      []int // connection index of each ack
+	psyncs     []Psync
+	other      []string
+	nconn      int
+	conns      []net.Conn
 }
 
 func New() *Master { return &Master{Role: "master"} }
@@ -162,6 +163,11 @@ func (m *Master) Serve(c net.Conn) {
 				m.ackAt = append(m.ackAt, id)
 				m.mu.Unlock()
 			} else {
+				if len(argv) >= 3 && strings.ToLower(argv[1]) == "listening-port" {
+					m.mu.Lock()
+					m.listenPort = argv[2]
+					m.mu.Unlock()
+				}
 				reply = "+OK\r\n"
 			}
 		case "psync":
@@ -186,7 +192,18 @@ func (m *Master) Serve(c net.Conn) {
 				}
 			}
 		case "info":
-			body := "# Replication\r\nrole:" + m.Role + "\r\nconnected_slaves:1\r\nslave0:ip=127.0.0.1,port=0,state=online,offset=0,lag=0\r\n"
+			// the replica line a master shows for the tool: the port it announced with REPLCONF
+			// listening-port and the offset it acknowledged last
+			m.mu.Lock()
+			port, off := m.listenPort, int64(0)
+			if port == "" {
+				port = "0"
+			}
+			if len(m.acks) > 0 {
+				off = m.acks[len(m.acks)-1]
+			}
+			m.mu.Unlock()
+			body := "# Replication\r\nrole:" + m.Role + "\r\nconnected_slaves:1\r\nslave0:ip=127.0.0.1,port=" + port + ",state=online,offset=" + strconv.FormatInt(off, 10) + ",lag=0\r\n"
 			reply = fmt.Sprintf("$%d\r\n%s\r\n", len(body), body)
 		default:
 			m.mu.Lock()
